@@ -343,8 +343,14 @@ def make_class(desc, idx):
     return type('M%d' % idx, tuple(bases) + (base,), ns)
 
 
-def make_span(sd):
+def make_span(sd, labels_only=False):
+    """the span object handed to the constructor (labels_only: its labels as a plain list of Python ints)"""
     vals = list(range(sd['start'], sd['start'] + sd['n']))
+    if sd['kind'] == 'ndarray' and not labels_only:          # a mutable NumPy array as span (copy() must deep-copy it like a list)
+        import numpy as np
+        return np.array(vals)
+    if labels_only:
+        return vals
     return {'range': range(sd['start'], sd['start'] + sd['n']), 'tuple': tuple(vals), 'list': vals}[sd['kind']]
 
 
@@ -726,6 +732,8 @@ def c_span_src(sd, enc, span_locs):
     sp = make_span(sd)
     if sd['kind'] == 'list':
         return '(new_list %s)' % czl(enc.code(v) for v in sp)
+    if sd['kind'] == 'ndarray':
+        return '(new_arr %s %s)' % (cz(enc.code(sp.dtype)), czl(enc.code(v) for v in sp.tolist()))
     return '(SScalar %s)' % cz(enc.code(sp))
 
 
@@ -1290,7 +1298,7 @@ def gen_case(rng, flavour, uniq):
     shadows = [None] * len(classes)      # index = root index
 
     def new_instance(shared=False):
-        sd = {'kind': 'shared', 'id': 0} if shared else {'kind': rng.choice(['range', 'range', 'list', 'tuple']), 'start': rng.choice([0, 2000]), 'n': n}
+        sd = {'kind': 'shared', 'id': 0} if shared else {'kind': rng.choice(['range', 'range', 'list', 'tuple', 'ndarray']), 'start': rng.choice([0, 2000]), 'n': n}
         init = {}
         if desc['kind'] == 'model' and rng.random() < 0.5:
             init[rng.choice(desc['endo'] + desc['exo'])] = [lib.fhex(rng.choice(FLOATS)) for _ in range(n)]
@@ -1497,7 +1505,7 @@ def finish(case):
             class_names[ev[1]].append(ev[2][2])
         if ev[0] == 'init':
             sd = ev[2]['span']
-            spans.append(list(make_span(case['shared_spans'][sd['id']] if sd['kind'] == 'shared' else sd)))
+            spans.append([int(v) for v in make_span(case['shared_spans'][sd['id']] if sd['kind'] == 'shared' else sd, labels_only=True)])
             d = case['classes'][ev[1]]
             vars_of.append({nm: 'float' for nm in class_names[ev[1]]})
             kinds.append(d)
